@@ -202,7 +202,10 @@ class CellObject(Points, ABC):
                 if isinstance(child, PropertyGroup):
                     continue
                 if isinstance(child, Data):
-                    if child.name in ["A-B Cell ID", "Transmitter ID"]:
+                    if child.name in ["A-B Cell ID", "Transmitter ID"] and (
+                        hasattr(self, "ab_cell_id") or hasattr(self, "tx_id_property")
+                    ):
+                        # link data of a survey: re-created by the survey's own copy
                         continue
 
                     child_mask = mask
